@@ -331,6 +331,7 @@ type netPlan struct {
 	lateMin   time.Duration
 	dupPct    int
 	variety   bool // IP options, TCP options, payloads in replies
+	burst     bool // reply latencies quantised: several replies arrive at the same instant
 	replies   int
 	iface     string
 	unsol     []unsolFrame
@@ -479,6 +480,18 @@ func (np *netPlan) onWrite(n *simwire.Net, f *simwire.Frame) {
 		return
 	}
 	d := time.Duration(1 + r.n("lat", int(np.maxDelay)-1))
+	if np.burst {
+		// replies arrive in bursts: several frames at the same virtual instant, so that records of
+		// several frames are in the result buffers together
+		q := np.maxDelay/6 + 1
+		d = d/q*q + 1
+		if d >= np.maxDelay {
+			d = np.maxDelay - 1
+		}
+		if d < 1 {
+			d = 1
+		}
+	}
 	if np.latePct > 0 && r.pct("late", np.latePct) {
 		d = np.lateMin + time.Duration(r.n("latelat", int(np.maxDelay)))
 		tag += "-late"
